@@ -5,6 +5,9 @@
 #include <ctpg/ctpg.hpp>
 #include <cstdio>
 #include <vector>
+#include <exception>
+#include <unistd.h>
+#include <stdexcept>
 #include <any>
 #include <initializer_list>
 #include <type_traits>
@@ -94,6 +97,15 @@ struct CommaE
     explicit CommaE(int i) : id(i) {}
     template<typename C> friend int operator,(CommaE& e, C&&) { return -e.id; }
 };
+// a type whose construction from a value may THROW (a validating type) while its moves cannot: the exception is the caller's
+struct ThrowT
+{
+    int v = 0;
+    ThrowT(const Tr& t) : v(t.id) { if (t.id % 2 == 1) throw std::runtime_error("odd"); }
+    ThrowT(ThrowT&&) noexcept = default;
+};
+inline const char* cur = "";
+inline void on_terminate() { printf("HFAIL %s std::terminate was called (an exception did not get out of the helper)\n", cur); fflush(stdout); _exit(0); }
 inline void check(bool ok, const char* cid, const char* what)
 {
     ++checks;
